@@ -95,7 +95,7 @@ func concurrentPhase(r *ev.Run, opts *config.PersistOptions, seed int64) {
 	variants := []string{"replicas", "label-key", "mode"}
 	for k := 0; k < rounds; k++ {
 		rng := rand.New(rand.NewSource(seed + int64(k)))
-		n := []int{10, 300, 64}[k%3]
+		n := []int{10, 300, 64, 1100, 33, 2049}[k%6] // two of six rounds scan more than one batch
 		variant := variants[(k/3)%3]
 		second := ""
 		if k%4 >= 2 {
@@ -450,10 +450,125 @@ func gatedConfigDuringScan(r *ev.Run, opts *config.PersistOptions, variant strin
 	r.Count("gated_schedule_without_violation_"+variant, 1)
 }
 
+// gatedBatchBoundary holds a tick inside its holdAt-th ScanRegions call, i.e. while the recovery
+// cursor sits on a batch boundary, and lets region reports arrive meanwhile: one for a region the
+// cursor has passed, one for a region of the batch already fetched, and the missing report of the
+// first region of the last batch (not yet scanned). The last region of the key space stays stale, so
+// sync must not be declared in this tick; afterwards it reports and sync must follow. Optionally a
+// configuration bounce queues up during the hold.
+func gatedBatchBoundary(r *ev.Run, opts *config.PersistOptions, n, holdAt int, withBounce bool, seed int64) {
+	p := params{Hist: -2500, HSeed: seed, N: n, Ticks: 0, TP: 2, TD: 1, AsyncWait: "0", StartMode: modeDR}
+	w := newWorld(r, p, rand.New(rand.NewSource(seed)), opts)
+	defer w.close()
+	if !w.setup() {
+		return
+	}
+	tick := func() { w.call(callInfo{kind: "tick"}, func() error { w.m.VerifTickDR(); return nil }) }
+	prim, dr := w.dcStores()
+	w.setDown(prim, 0)
+	w.setDown(dr, len(dr))
+	tick() // -> async
+	w.setDown(dr, 0)
+	tick() // -> sync_recover
+	if !w.last.dr() || w.last.State != stRecover {
+		r.Count("gated_setup_missed", 1)
+		return
+	}
+	x := w.last
+	d1, d2 := ((n-1)/1024)*1024, n-1
+	for i, g := range w.regs {
+		if i == d1 || i == d2 {
+			w.put(g, true, w.staleID(x.ID), integ)
+		} else {
+			w.put(g, true, x.ID, integ)
+		}
+	}
+	before := len(savesOf(w.kv.Log()))
+	inScan, release := make(chan struct{}), make(chan struct{})
+	var calls int32
+	w.cl.scanHook = func() {
+		if atomic.AddInt32(&calls, 1) == int32(holdAt) {
+			close(inScan)
+			<-release
+		}
+	}
+	var wg sync.WaitGroup
+	tDone := make(chan struct{})
+	go func() { w.m.VerifTickDR(); close(tDone) }()
+	held := true
+	select {
+	case <-inScan:
+	case <-tDone:
+		held = false
+	}
+	if held {
+		w.put(w.regs[5%n], true, x.ID, integ)      // behind the cursor
+		w.put(w.regs[(1030)%n], true, x.ID, integ) // in the batch already fetched
+		if d1 != d2 {
+			w.put(w.regs[d1], true, x.ID, integ) // not yet scanned: arrives just in time
+		}
+		if withBounce {
+			wg.Add(1)
+			go func() {
+				defer wg.Done()
+				c := w.cfg
+				c.ReplicationMode = modeMaj
+				w.m.UpdateConfig(c)
+				w.m.UpdateConfig(w.cfg)
+			}()
+			time.Sleep(20 * time.Millisecond)
+		}
+		close(release)
+	}
+	<-tDone
+	wg.Wait()
+	w.cl.scanHook = nil
+	name := fmt.Sprintf("n=%d,hold=%d,bounce=%v", n, holdAt, withBounce)
+	r.Count("gated_batch_boundary_runs", 1)
+	if !held {
+		r.Count("gated_batch_boundary_hold_not_reached", 1)
+	}
+	r.Eval(1)
+	served, _ := w.observe()
+	seq := x.String()
+	bad := false
+	for _, sv := range savesOf(w.kv.Log())[before:] {
+		if sv.Err == "" {
+			seq += " -> " + sv.P.String()
+			if sv.P.State == stSync {
+				bad = true
+			}
+		}
+	}
+	r.Distinct("gated-batch|" + name + "|" + seq[len(x.String()):])
+	if bad {
+		r.Violation("sync-not-allowed:reports-during-batched-scan", fmt.Sprintf("%s: saved states %s although region #%d (the last one) never reported under the served id; served afterwards %v", name, seq, d2, served),
+			w.witness(map[string]interface{}{"case": name, "saved": seq, "stale_regions": []int{d1, d2}}))
+		return
+	}
+	// the rest through the monitored path: everything reports under whatever id is served now
+	w.last = served
+	if served.dr() {
+		w.served[served.ID] = served.State
+	}
+	w.foldIDs(w.kv.Log(), w.rep.all())
+	for i := 0; i < 6 && w.last.dr() && w.last.State == stRecover; i++ {
+		for _, g := range w.regs {
+			if !w.compliant(g, w.last.ID) {
+				w.put(g, true, w.last.ID, integ)
+			}
+		}
+		tick()
+	}
+	if !(w.last.dr() && w.last.State == stSync) {
+		r.Count("gated_batch_boundary_did_not_finish_in_sync", 1)
+	}
+}
+
 func main() {
 	r := ev.New("C19", "exploration")
 	quiet()
-	r.Rule("one history = a seeded choice of (region count N in {1..64, 600, 1023..1025, 1100; thorough also 2047..2049, 2500}, replicas per datacenter, stores per datacenter, WaitAsyncTimeout 0|1h, start mode, absent regions at head/tail/scan-batch boundary, fault plan, concurrent status reader) followed by 30 (thorough 40) ticks; 1200 histories quick, 3000 per shard thorough; between ticks stores fail/recover per datacenter (steered to the thresholds), region reports arrive (complete / partial per tick / complete except 1-4 defective regions held for 1-4 ticks then repaired; forward, reverse or shuffled; stale ids, simple-majority, no status, late regressing reports), the configuration is switched (majority<->dr-auto-sync, wait timeout, replicas, primary/dr swap, label key), the manager is re-constructed. evaluations = monitored calls (tick / UpdateConfig / construction). distinct = abstract situation of a call: (call kind, observed transition, model predicates async-allowed / can-recover / majority / wait-elapsed, reason the report scan fails, injected fault, region-count bucket) plus the per-history sequence of transitions.")
+	r.Rule("one history = a seeded choice of (region count N in {1..64, 600, 1023, 1024, 1025, 1100, 2048, 2049, 3000; thorough also 513, 2047, 2500, 3073, 4100}, region keys fixed-width or prefixes of each other (a, a\\x00, aa, job-1, job-10, ...), replicas per datacenter, stores per datacenter, WaitAsyncTimeout 0|1h, start mode, absent regions at the hot positions (0, 511-513, 1023-1025, 2047-2049, 3071-3073, last), fault plan, concurrent status reader) followed by 30 (thorough 40) ticks; 1000 histories quick, 2500 per shard thorough; between ticks stores fail/recover per datacenter (steered to the thresholds), region reports arrive (complete / partial per tick / complete except 1-4 defective regions held for 1-4 ticks then repaired; 'walk': defects at 2-6 hot positions repaired in key order one tick after the other so that the cursor crosses the batch boundaries while already-scanned regions re-report and late regions ahead report, optionally with a majority->dr bounce in the middle followed by a tail-first stream; forward, reverse or shuffled; stale ids, simple-majority, no status, late regressing reports), the configuration is switched (majority<->dr-auto-sync, wait timeout, replicas, primary/dr swap, label key), the manager is re-constructed. evaluations = monitored calls (tick / UpdateConfig / construction). distinct = abstract situation of a call: (call kind, observed transition, model predicates async-allowed / can-recover / majority / wait-elapsed, reason the report scan fails, injected fault, region-count bucket) plus the per-history sequence of transitions.")
 	r.Assume("stores are up (last heartbeat = now) or down (last heartbeat 100 h ago) against WaitStoreTimeout = 1 h; WaitAsyncTimeout is 0 (elapsed) or 1 h (never elapses within a history); no verdict depends on a wall-clock race")
 	r.Assume("region reports carry the served state id or an older one; ids that were not issued yet are not generated (stores only echo ids they were told)")
 	r.Assume("documented special cases are not judged for permission (counted as skipped_ambiguous_*): UpdateConfig majority->dr-auto-sync enters sync_recover, a label-key change enters async, the state served by a fresh manager on empty storage is sync; a region whose latest report regressed after it had reported integrity under the served id is judged by 'has reported'")
@@ -487,7 +602,7 @@ func main() {
 	}
 
 	master := rand.New(rand.NewSource(r.ShardSeed()))
-	histories := r.Pick(1200, 3000)
+	histories := r.Pick(1000, 2500)
 	if os.Getenv("VERIF_C19_ONLY_CONCURRENT") == "1" {
 		histories = 0 // development aid
 	}
@@ -503,13 +618,20 @@ func main() {
 		}
 	}
 	mergeWitness(r, opts)
+	scaleGrid(r, opts, master.Int63())
 	if os.Getenv("VERIF_C19_CONCURRENT") != "0" {
 		for i, v := range []string{"label-key", "mode-bounce", "label-key", "mode-bounce"} {
 			gatedConfigDuringScan(r, opts, v, []int{3, 3, 1100, 1100}[i], master.Int63())
 		}
+		for _, c := range []struct {
+			n, hold int
+			bounce  bool
+		}{{1025, 2, false}, {2049, 2, false}, {2049, 3, true}, {3000, 2, true}, {3000, 3, false}, {1024, 1, false}} {
+			gatedBatchBoundary(r, opts, c.n, c.hold, c.bounce, master.Int63())
+		}
 		gatedGrid(r, opts, master.Int63())
 		concurrentPhase(r, opts, master.Int63())
 	}
-	r.Floor(int64(r.Pick(10000, 30000)))
+	r.Floor(int64(r.Pick(10000, 25000)))
 	r.Finish()
 }
